@@ -309,8 +309,11 @@ def end_to_end(ctx, spec, quiet, label, key, variant=None):
         # the same file reached through several arguments (check src src/big.py; check a.py a.py): however often a file is
         # listed, the summary count must match the listing, every listed row must be a function over 30, and the exit status
         # follows from the lengths
-        forms = ([os.path.dirname(order[0]), order[0]], [order[0], order[0]], [".", order[-1]])
-        for paths in [forms[spec_variant(spec, quiet) % 3]]:
+        d_first, d_last = os.path.dirname(order[0]), os.path.dirname(order[-1])
+        forms = ([d_first, order[0]], [order[0], order[0]], [".", order[-1]], [order[0], d_last], [order[-1], d_first], [d_last, d_first],
+                 list(reversed(order)) + [d_first])
+        v = spec_variant(spec, quiet)
+        for paths in [forms[v % 7], forms[(v + 3) % 7]]:
             try:
                 code, out = run_check(ctx, root, paths, False, "check_command")
             except MonitorViolation:
@@ -325,7 +328,7 @@ def end_to_end(ctx, spec, quiet, label, key, variant=None):
             ocase = dict(case, paths=paths)
             if any(r not in exp_set for r in got_rows):
                 ctx.violation("overlap_listing_row_unknown", ocase, {"paths": paths, "observed": got_rows[:6]})
-            reached = [r for r in exp_rows if paths[0] in (".", "") or r[0].startswith(paths[0]) or r[0] == paths[1]]
+            reached = [r for r in exp_rows if any(a in (".", "") or r[0] == a or r[0].startswith(a.rstrip("/") + "/") for a in paths)]
             if not set(reached) <= set(got_rows):
                 ctx.violation("overlap_listing_incomplete", ocase, {"paths": paths, "missing": sorted(set(reached) - set(got_rows))[:6]})
             k = summary[2] if summary else None
